@@ -46,7 +46,7 @@ hp    == <<hcount, encOrder, dlvOrder>>
 conn  == <<pings, goneAway, aClosed, sets>>
 vars  == <<rel, iw, mf, cont, ctl, ledg, aled, sentLog, dlvLog, nSend, nCtl, hp, conn>>
 
-NoCont == [s |-> 0, es |-> FALSE]
+NoCont == [s |-> 0, es |-> FALSE, pp |-> 0]      \* pp: the promised stream when the open block is a PUSH_PROMISE's
 FC(f) == IF f.t = "D" THEN f.n ELSE 0
 
 Init ==
@@ -156,14 +156,15 @@ ASendHeaders(s, es) ==                 \* HEADERS with END_HEADERS
 
 ASendHeadersOpen(s, es) ==             \* HEADERS without END_HEADERS: relay.go:231-234
   /\ nSend < MaxSend /\ cont.s = 0 /\ nSend' = nSend + 1
-  /\ cont' = [s |-> s, es |-> es]
+  /\ cont' = [s |-> s, es |-> es, pp |-> 0]
   /\ sentLog' = [sentLog EXCEPT ![s] = AddEl(@, "h", 0, es)]
   /\ UNCHANGED <<rel, iw, mf, ctl, ledg, aled, dlvLog, nCtl, hp, conn>>
 
 AContinuation ==                       \* CONTINUATION with END_HEADERS: relay.go:294-303, :584
   /\ cont.s # 0
   /\ LET es == IF BugContES THEN TRUE ELSE cont.es IN
-       EnqueueEmit(cont.s, << [t |-> "H", s |-> cont.s, n |-> 0, es |-> es, h |-> hcount + 1] >>)
+       IF cont.pp # 0 THEN EnqueueEmit(cont.s, << [t |-> "PP", s |-> cont.s, n |-> cont.pp, es |-> FALSE, h |-> hcount + 1] >>)
+       ELSE EnqueueEmit(cont.s, << [t |-> "H", s |-> cont.s, n |-> 0, es |-> es, h |-> hcount + 1] >>)
   /\ cont' = NoCont
   /\ UNCHANGED <<iw, mf, ctl, aled, sentLog, nSend, nCtl, conn>>
 
@@ -179,6 +180,13 @@ ASendPush(s, p) ==
   /\ sentLog' = [sentLog EXCEPT ![s] = AddEl(@, "pp", p, FALSE)]
   /\ EnqueueEmit(s, << [t |-> "PP", s |-> s, n |-> p, es |-> FALSE, h |-> hcount + 1] >>)
   /\ UNCHANGED <<iw, mf, cont, ctl, aled, nCtl, conn>>
+
+\* PUSH_PROMISE without END_HEADERS, completed by CONTINUATION like a HEADERS frame (relay.go pushPromiseContinuation)
+ASendPushOpen(s, p) ==
+  /\ nSend < MaxSend /\ cont.s = 0 /\ nSend' = nSend + 1
+  /\ cont' = [s |-> s, es |-> FALSE, pp |-> p]
+  /\ sentLog' = [sentLog EXCEPT ![s] = AddEl(@, "pp", p, FALSE)]
+  /\ UNCHANGED <<rel, iw, mf, ctl, ledg, aled, dlvLog, nCtl, hp, conn>>
 
 \* PRIORITY frames and the priority fields of HEADERS travel in stream order too (relay.go:243, :406-431) but carry
 \* nothing the statement constrains: they are part of the schedules - they change how header blocks are split
@@ -312,7 +320,7 @@ Next ==
   \/ \E s \in Streams, es \in BOOLEAN : ASendHeaders(s, es) \/ ASendHeadersOpen(s, es)
   \/ AContinuation
   \/ \E s \in Streams, c \in RstCodes : ASendRst(s, c)
-  \/ \E s \in Streams, p \in Promised : ASendPush(s, p)
+  \/ \E s \in Streams, p \in Promised : ASendPush(s, p) \/ ASendPushOpen(s, p)
   \/ \E s \in Streams : ASendPrio(s)
   \/ \E d \in Pings : ASendPing(d) \/ BRecvPing(d)
   \/ ASendGoAway \/ BRecvGoAway \/ ASendClose \/ ASendCloseFull \/ BSendPing \/ ASendUnknown
